@@ -86,6 +86,7 @@ type Op struct {
 	Transport string `json:"transport,omitempty"` // header (default) | header_lower | cookie
 	ExpS      int    `json:"exp_s,omitempty"`     // exp claim, seconds after the start of the run (0: none)
 	NbfS      int    `json:"nbf_s,omitempty"`     // nbf claim, seconds after the start of the run (0: none)
+	PathStyle int    `json:"path_style,omitempty"` // 0: the route as registered; >0: an unusual spelling of its path (see oddPath)
 }
 
 // RunConfig: fault kinds, weights and component selection of a run (swarm style).
@@ -797,6 +798,9 @@ func richVars(g gen) map[string]interface{} {
 // clock crosses exp / nbf while requests are being issued.
 func genAuthOp(g gen, op *Op, scheduled int) {
 	op.Route = g.n(64)
+	if g.p(150) {
+		op.PathStyle = 1 + g.n(6)
+	}
 	op.Job = 1 + g.n(scheduled+2)
 	op.Cred = credClasses[g.n(len(credClasses))]
 	if g.p(350) {
